@@ -173,11 +173,14 @@ Definition fsm_input (rfc : bool) (c : cframe) (f : fsm) : fsm * list act :=
   end.
 
 (* variant: [vrep] session logic of /repo HEAD (true) or of the code before the C03 fixes (false); [vrfc] FSM table flavour *)
-Record vr := mkV4 { vrep : bool; vrfc : bool;
+Record vr := mkV5 { vrep : bool; vrfc : bool;
                      vtd : bool;  (* the session is torn down when LCP leaves Opened on an authenticated link
                                      (e9950ea); false = the code before it *)
                      vhl : bool   (* an AAA answer that was matched to a session before that session was torn down is
-                                     dropped when it gets the session lock (0709f1b); false = the code before it *) }.
+                                     dropped when it gets the session lock (0709f1b); false = the code before it *);
+                     vsf : bool   (* a dataplane failure report for a session that has already been through terminate() is
+                                     ignored (fixes/C03_pppoe_vpp_failure_after_teardown.patch); false = /repo HEAD *) }.
+Definition mkV4 (rep rfc td hl : bool) : vr := mkV5 rep rfc td hl true.
 Definition mkV3 (rep rfc td : bool) : vr := mkV4 rep rfc td td.
 Definition mkV (rep rfc : bool) : vr := mkV3 rep rfc true.
 
@@ -506,7 +509,9 @@ Inductive event :=
 (* an AAA answer for request k that handleAAAResponse matched to slot i's session (by the pending id, under the
    component lock) BEFORE the previous event was handled, and that only now gets the session lock: it re-checks the
    pending id there — and, with [vhl], that the session has not been through terminate() *)
-| EvAAAHeld (i k : nat) (a : akind).
+| EvAAAHeld (i k : nat) (a : akind)
+(* the dataplane reports that the oldest queued session add FAILED (onVPPSessionCreated with an error) *)
+| EvSbFail.
 
 (* dispatcher.HandleFrame + the session's handlers, for a live session *)
 Definition handle_frame (v : vr) (i : nat) (f : frame) (m : mach) : mach :=
@@ -618,6 +623,17 @@ Definition aaa_apply (v : vr) (i : nat) (a : akind) (m : mach) : mach :=
 (* the re-check under the session lock for an answer matched earlier: terminate() does not clear the pending id *)
 Definition held_matches (v : vr) (k : nat) (s : sess) : bool :=
   pend_matches v k s || (negb (vhl v) && match k, pend s with S _, Some k' => Nat.eqb k k' | _, _ => false end).
+(* session.go onVPPSessionCreated(err) -> component.go tearDownSessionAfterVPPFailure: out of the indexes, Released, PADT
+   (discovery egress, not a compared output), terminate().  The callback is the session's own method: it also runs for a
+   session that was torn down while the add was queued — on /repo HEAD ([vsf] = false) terminate() then runs a second time:
+   Released and the dataplane delete are repeated, and its Release calls are no-ops only as long as nobody else has taken
+   the addresses since (what the generator guarantees; when somebody has, HEAD frees the OTHER subscriber's leases —
+   witness in notes/C03.md; the counter pools of this model cannot express that).  GLcpDown: the link is
+   over, the monitor forgets the accept. *)
+Definition sb_fail (v : vr) (m : mach) : mach :=
+  if live (ms m) then emit GLcpDown (terminate (upd (set_live false) (emit OLifeR m)))
+  else if vsf v then m
+  else emit OLifeR (emit OSbDel (emit OLifeR m)).
 Definition step (v : vr) (st : state) (e : event) : state * list (nat * out) :=
   match e with
   | EvOpen i => on_slot st i (open_session v i)
@@ -639,6 +655,17 @@ Definition step (v : vr) (st : state) (e : event) : state * list (nat * out) :=
     match nth_error (sl st) i with
     | Some s => if held_matches v k s then on_slot st i (aaa_apply v i a) else (st, [])
     | None => (st, [])
+    end
+  | EvSbFail =>
+    match queue st with
+    | [] => (st, [])
+    | (i, g) :: q =>
+      let st' := mkSt (sl st) (nreq st) (free st) q (free6 st) in
+      match nth_error (sl st) i with
+      | Some s => if Nat.eqb (gen s) g then on_slot st' i (sb_fail v)
+                  else (st', [(nslots, OLifeR)])     (* a superseded incarnation (re-PADR): outside the model *)
+      | None => (st', [])
+      end
     end
   | EvTimer i t => on_slot st i (handle_timer v i t)
   | EvPadt i | EvDead i =>
